@@ -17,6 +17,28 @@ TRUSTED = (
 )
 
 CHECKS = {
+    "C03": dict(
+        technique="TLA+ specs Values.tla (object/type universe, Member relation) + Assign.tla (transcription of the can_assign "
+        "dispatch); TLC proves ImplCA(A, Known(o)) = Member(o, A) for every static type term x object; each (A, o) is replayed "
+        "through Value.can_assign, pyanalyze.runtime.is_assignable and `x: A = <literal>` snippets and adjudicated by TLC "
+        "(AssignTrace.tla) against Member",
+        text="Model checking over the bounded universe (18 classes, 40 objects, ~300 static depth-1 type terms in quick, depth-2 "
+        "in thorough): the implementation-shaped model is proved equal to structural membership, and the real code is bound by "
+        "exhaustive replay of the same (type, object) pairs on three routes with TLC judging every real verdict against Member.",
+        design="2/C03",
+        note=TRUSTED + " Member is defined from the typing spec and never refers to pyanalyze's algorithms.",
+    ),
+    "C04": dict(
+        technique="TLA+ specs Values.tla + ValueAlgebra.tla + Assign.tla; TLC proves soundness w.r.t. Member, reflexivity, Never/object "
+        "laws, union laws, Any laws and exclude-any monotonicity on every pair of type terms; every pair is replayed through "
+        "the real Value.can_assign (plain and under set_exclude_any) and adjudicated by TLC (AssignTrace.tla)",
+        text="Model checking: all ~108k ordered pairs of depth-1 terms (quick) / depth-2 (thorough) on the model; exhaustive "
+        "replay of the same pairs into the real code (drift = 0 means the transcription is exact on the space), plus TLC "
+        "simulation of deeper terms. Documented leniencies are named predicates; the enum-metaclass protocol hole is a named "
+        "known deviation.",
+        design="2/C04",
+        note=TRUSTED + " Leniencies excluded from Sound are listed in DESIGN.md (bare generics, fixed<-variadic tuple, NewType<-supertype).",
+    ),
     "C11": dict(
         technique="TLA+ state machine Suppression.tla (show_error decision chain, unused/bare ignore passes) vs declarative "
         "RefD, exhaustive TLC; TLC-enumerated files realised as source, checked by the real visitor with the ShowError hook, "
